@@ -45,6 +45,7 @@ type c1Tx struct {
 	changes   []c1Change
 	commitTS  uint32
 	now, next int64
+	file      string // binlog file of both labels ("" = the first file)
 }
 
 var c1Tables = [][]c1Col{
@@ -375,7 +376,9 @@ func VH_C01_History(cfg, axis int) {
 		tx.commitTS = vhU32()
 		tail := 0
 		if axis == 2 {
-			tail = vhChoose(3) // 0: XID; 1: COMMIT query, then a DDL; 2: XID, then a DDL
+			// 0: XID; 1: COMMIT query, then a DDL; 2: XID, then a DDL;
+			// 3: XID, then the log rotates inside the dump (second FORMAT_DESCRIPTION) and a DDL follows in the new file
+			tail = vhChoose(4)
 		}
 		if tail == 1 {
 			// closed by a COMMIT query event (non-transactional engines) instead of XID
@@ -387,9 +390,21 @@ func VH_C01_History(cfg, axis int) {
 		}
 		boundary = tx.next
 		txs = append(txs, tx)
+		ddlFile := ""
+		if tail == 3 {
+			rb := &replication.VHWriter{}
+			rb.U64(4)
+			rb.Str("bin.000008")
+			emit(4, vhU32(), rb.Bytes(), true)  // the real ROTATE event at the end of the old file
+			emit(4, 0, rb.Bytes(), false)       // the new file's head as a master serves it: fake ROTATE ...
+			off = 4
+			emit(15, vhU32(), replication.VHFormatBody(alg, width), true) // ... and its FORMAT_DESCRIPTION
+			boundary = 4 // the target of the rotation
+			ddlFile = "bin.000008"
+		}
 		if tail != 0 {
 			// a statement logged outside BEGIN..COMMIT is a transaction of its own
-			ddl := c1Tx{now: boundary, commitTS: vhU32()}
+			ddl := c1Tx{now: boundary, commitTS: vhU32(), file: ddlFile}
 			sql := "create table x" + string(rune('0'+t)) + " (a int)"
 			ddl.next = int64(query(sql, ddl.commitTS))
 			ddl.changes = []c1Change{{kind: kQuery, sql: sql, ts: ddl.commitTS}}
@@ -405,8 +420,12 @@ func VH_C01_History(cfg, axis int) {
 		vhAssert(k < len(txs), "nothing but the committed transactions is delivered")
 		want := txs[k]
 		k++
-		vhAssert(t.NowPosition.Filename == "bin.000007" && t.NowPosition.Offset == want.now, "start label")
-		vhAssert(t.NextPosition.Filename == "bin.000007" && t.NextPosition.Offset == want.next, "end label")
+		wf := "bin.000007"
+		if want.file != "" {
+			wf = want.file
+		}
+		vhAssert(t.NowPosition.Filename == wf && t.NowPosition.Offset == want.now, "start label")
+		vhAssert(t.NextPosition.Filename == wf && t.NextPosition.Offset == want.next, "end label")
 		vhAssert(t.Timestamp == int64(want.commitTS), "commit timestamp")
 		vhAssert(len(t.Events) == len(want.changes), "ordered changes of the transaction")
 		for i, wc := range want.changes {
